@@ -351,6 +351,10 @@ def generate(template_path, twin=False):
             raw = s.text[a:b]
             cleaned = strip_attrs_and_docs(raw)
             cleaned = re.sub(r"\bpub\s*\(\s*(crate|super)\s*\)", "pub", cleaned)
+            if "pub" in words[3:]:
+                # widen: the type and all of its named fields become pub (type definitions only)
+                cleaned = re.sub(r"^(\s*)(struct|enum)\b", r"\1pub \2", cleaned, count=1)
+                cleaned = re.sub(r"(?m)^(\s+)([a-z_][A-Za-z0-9_]*\s*:)", r"\1pub \2", cleaned)
             out.append(cleaned)
             report["items"].append({"file": words[1], "item": words[2], "role": kind,
                                     "sha256": hashlib.sha256(cleaned.encode()).hexdigest(),
@@ -450,7 +454,7 @@ def generate(template_path, twin=False):
         "doc comments and attributes on extracted items and type definitions",
         "the enclosing impl header's generics/where-clauses (the template supplies the impl block)",
         "return types are named: `-> T` becomes `-> (ret: T)` (needed to state postconditions)",
-        "pub(crate)/pub(super) widened to pub on extracted type definitions and constants (single-file crate)",
+        "pub(crate)/pub(super)/private widened to pub on extracted type definitions, their fields and constants (single-file crate; no runtime meaning)",
         "foreign type definitions not extracted with //@struct are opaque declarations in the unit prelude",
     ]
     return gen, report
